@@ -186,5 +186,6 @@ fn main() {
             2
         }
     };
+    report::cleanup_worker_exe();
     std::process::exit(code);
 }
